@@ -37,6 +37,7 @@ def run(ctx):
     ctx.rule("R19.3", "FORMAT: every variadic OSC constructor call in automations.cpp passes the promoted C type its type tag takes")
     ctx.rule("R19.4", "KEYS: the metadata keys read by createBinding / setSlotSubPath are emitted by rLinear/rLog/rLogWithLogmin, and strstr(scale,\"log\") separates the scale values those macros emit")
     ctx.rule("R19.6", "MAPPING-FRESH: in createBinding / setSlotSubPath every store to a field that updateMapping reads (param_min, param_max, map.gain, map.offset) precedes the updateMapping call")
+    ctx.rule("R19.7", "RESET-COMPLETE: clearSlot and the constructor put every -1-sentinel field of the slot (learning, midi_cc, midi_nrpn) back to -1")
     ctx.rule("R19.5", "QUEUE-GUARD: every decrement of a -1-sentinel field or of learn_queue_len is enclosed by conditions that are unsatisfiable while another slot expression in them is -1")
 
     # ---- sentinel fields: FieldDecls that are assigned the literal -1
@@ -165,6 +166,25 @@ def run(ctx):
                        key="R19.5:%s:%s" % (q, member_text(tgt)),
                        what="%s decrements %s under conditions that hold with %s" % (q, member_text(tgt), witness))
     ctx.require(n5 >= 4, "R19.5: only %d queue decrements found" % n5)
+
+    # ---- R19.7
+    def _rec_of(fid):
+        d = u.by_id.get(fid)
+        par = u.parent.get(fid) if d is not None else None
+        return par.get("name") if par is not None else None
+    slot_sent = {fid: nm for fid, nm in sentinel.items() if _rec_of(fid) == "AutomationSlot"}
+    ctx.require(len(slot_sent) >= 3, "R19.7: sentinel fields of AutomationSlot not found (%s)" % sorted(slot_sent.values()))
+    allsent = set(slot_sent.values())
+    for q in ("AutomationMgr::clearSlot", "AutomationMgr::AutomationMgr"):
+        fq = u.function(q)
+        reset = set()
+        for x in A.walk(u.body(fq)):
+            if x.get("kind") == "BinaryOperator" and x.get("opcode") == "=":
+                l = A.strip_casts(A.kids(x)[0])
+                if l.get("kind") == "MemberExpr" and l.get("referencedMemberDecl") in slot_sent and A.int_literal(A.kids(x)[1]) == -1:
+                    reset.add(l.get("name"))
+        ctx.ob("R19.7", q, reset == allsent, site=A.where(fq), detail={"sentinel_fields": sorted(allsent), "reset_here": sorted(reset)},
+               what="%s leaves %s untouched: a cleared slot keeps a stale binding" % (q, sorted(allsent - reset)))
 
     # ---- R19.6
     um = u.function("AutomationMgr::updateMapping")
